@@ -119,8 +119,20 @@ def _replace_calls(s, pattern, repl_fn):
     return ''.join(out)
 
 
+# R18: helpers to inline at their call sites (set by Unit.generate for the duration of one generation)
+INLINE_HELPERS = []
+
+
 def rewrite_body(s):
     """Apply R3, R10, R11 and the path flattening (R2) to item text."""
+    if INLINE_HELPERS:
+        import inline as _inline
+        for _ in range(3):
+            before = s
+            for (hn, hp, hb) in INLINE_HELPERS:
+                s = _inline.apply(s, hn, hp, hb, _count)
+            if s == before:
+                break
     # R2: path flattening – the three crates become one flat namespace
     s2 = re.sub(r'(?<![A-Za-z0-9_:])::(core|std|alloc)::', r'\1::', s)
     s2 = re.sub(r'(?<![A-Za-z0-9_:])(crate|fpdec_core|fpdec_macros)::(binops::\w+::|\w+::)?(?=[A-Za-z_])',
@@ -855,6 +867,8 @@ class Unit:
         """sources: {src name: index dict from rsx.index}. Returns (text, linemap, meta)."""
         em = Emitter()
         del CANARIES[:]
+        del INLINE_HELPERS[:]
+        INLINE_HELPERS.extend(getattr(self, 'inline_helpers', []))
         VACUITY[0] = (mode == 'V')
         vac = VACUITY[0]
         if vac:
